@@ -25,6 +25,15 @@ every call every shared argument must still equal its pristine copy (values and 
 obtained earlier must not have changed, the harness scribbles on results it owns (a memoised /
 aliased result then shows up in a later call or in an argument), and a Stream / generator argument
 (rejected with TypeError: the functions need len()) must not have been consumed.
+
+Call layer (round 3).  A single-call case may carry "ord" = {"k": omitted | none | int | real, "v", "py": bool |
+float | frac} (the spelling of order / max_lag; the Lean side is `OrdArg` of Model/C10Call.lean), "kw" (which
+arguments go by keyword), "seq" (container kind) and "num" in int / frac / float / bool / bigint / complex; entry
+"lpc" selects a strategy of the StrategyDict by name ("via": attr | item; name None = lpc(...) itself).  The
+driver answers with `levinsonCall` / `acorrCall` / `lagMatrixCall` / `kautocorCall` / `kcovarCall` / `lpcCall
+noNumpy`; complex samples go through the same polymorphic model instantiated at the Gaussian rationals.  A
+ZeroDivisionError of kcovar comes with the dependency witness of theorem `kcovar_zero_division_singular`
+(checked to annihilate the window).
 """
 import json, math
 from fractions import Fraction as F
@@ -33,8 +42,15 @@ from common import enc, dec, encl, decl, err_kind, close
 
 ID = "C10"
 RULE = ("lag vectors from reflection coefficients (dyadic: exact regime; tenths |k|<=9/10: float regime), "
-        "from autocorrelations of data blocks, singular (k=+-1) and random small vectors; blocks of ints / "
-        "Fractions / dyadic floats; orders 0..8, None, and >= len (zero extension); a case is non-trivial when "
+        "from autocorrelations of data blocks, singular (k=+-1), NEAR-singular (|k| = 1 - 2^-10 .. 1 - 2^-40, one or two "
+        "stages, as Fractions and as the nearest doubles, orders beyond the stage) and random small vectors; blocks of "
+        "ints / Fractions / dyadic floats / bools / huge ints (tables) / complex numbers (Gaussian integers; the model "
+        "runs on Gaussian rationals); orders 0..8, None, and >= len (zero extension); CALL LAYER: the order / max_lag "
+        "omitted, None, an int of any sign, a bool, a float or Fraction (integral / fractional, below / from len on), "
+        "passed positionally or by keyword (data by keyword too); containers list / tuple / deque / read-only sequence / "
+        "list subclass / Stream.take result / generator / Stream; every name of the StrategyDict lpc by attribute and by "
+        "item, names that do not exist, lpc(...) itself around its threshold order 100; small universe of function x data "
+        "x every spelling exhaustively; a case is non-trivial when "
         "the impl returns a filter of order >= 1 or a non-empty table, or raises the modelled exception; "
         "distinct = distinct JSON case; histories: 2-4 calls among acorr / lag_matrix / toeplitz / levinson_durbin "
         "(order below, equal to, above len(r); default) / lpc.kautocor / lpc.kcovar / lpc sharing one argument object "
@@ -45,30 +61,51 @@ TRUSTED = [
     "hand-written Lean model ALV/Model/C10.lean of lazy_lpc.toeplitz/levinson_durbin/lpc.kautocor/lpc.kcovar and "
     "lazy_analysis.acorr/lag_matrix (modelled, not verified: ZFilter/Poly arithmetic is taken as coefficient-wise "
     "arithmetic on numlists without trailing zeros; Stream.append/take for the zero extension)",
+    "hand-written Lean model ALV/Model/C10Call.lean of the call layer: the spellings of order / max_lag (omitted, None, "
+    "int of any sign, non-int number: which comparison / integer context raises what, Stream.take rounding a float and "
+    "handing a Fraction to islice), the StrategyDict names and the default strategy's dispatch on order < 100 / "
+    "ParCorError; the numpy strategies lpc.nautocor / lpc.covar (lazy_lpc.py 219-225, 285-294) are a PARAMETER of the "
+    "model, instantiated with 'numpy absent: ModuleNotFoundError' - their bodies are unreachable here and neither "
+    "modelled nor tied",
+    "which strategy a function object of the StrategyDict is: decided by the harness from the source order of the "
+    "distinct functions (co_firstlineno), trusted",
     "histories: the harness' own bookkeeping (pristine copies, value+type equality of the shared arguments after every "
     "call, re-observation of earlier results, scribbling on returned lists / tables / the error attribute) is trusted; "
     "lpc (default strategy) needs numpy below order 100 (absent here: only the no-side-effect clauses are checked)",
     "float regime: the impl's numbers are binary floats (Poly zero = 0.), compared with tolerance 1e-9*(1+|x|) against "
-    "the exact rational model; exact regime decided from the Lean trace (dyadic intermediates below 2^52)",
+    "the exact rational model; exact regime decided from the Lean trace (dyadic intermediates below 2^52); Levinson runs "
+    "(also near-singular ones) whose exact recursion meets no zero divisor must return and are compared under the "
+    "conditioning-aware bound 2*(order+2)*growth^2*2^-52/(smallest relative divisor) when it is <= 1e-2 (an empirical "
+    "bound, calibrated on 2400 runs with a factor 25 of slack, not a theorem); complex samples: float regime 1e-8",
 ]
 ASSUMPTIONS = [
-    "order is None or an int >= 0; lag vectors / blocks are finite lists of ints, Fractions or floats",
-    "theorems are over an arbitrary field (kautocor_minimises: ordered field); float rounding is outside them",
+    "order / max_lag is omitted, None, an int (bool) or a finite float / Fraction (inf: levinson_durbin does not "
+    "terminate, not generated); lag vectors / blocks are finite sequences of ints, bools, Fractions, floats or complex",
+    "theorems are over an arbitrary field (kautocor_minimises, kcovar_zero_division_singular: ordered field); float "
+    "rounding is outside them",
 ]
 MANIFEST = {
     "text": "Lean 4 theorems, for every field / every lag vector / every order (no bound): levinson_durbin as coded "
             "returns a monic solution of the Yule-Walker equations with error = sum_j a_j r_j, raises ParCorError "
             "exactly when an intermediate prediction error is zero, E_{p+1} = E_p - Delta^2/E_p, matrix form with "
-            "toeplitz; acorr / lag_matrix / toeplitz are the documented sums; lpc.kautocor's error is the energy of "
-            "a * zero-extended block and (ordered field) the filter minimises it; lpc.kcovar as coded (Gram-Schmidt "
-            "with its exits) returns a solution of the covariance normal equations whose error is the residual "
-            "energy over n >= p, and minimises it.  Tied to /repo by a differential run (exact-rational model vs "
-            "the float-contaminated impl, exact on dyadic inputs) that also evaluates the Lean spec on the "
-            "coefficients the impl returns.",
-    "note": "Trusted: Lean kernel + propext/Classical.choice/Quot.sound, the Python harness, the hand-written model "
-            "(ZFilter/Poly arithmetic taken as coefficient-wise arithmetic on trimmed coefficient lists).  Float "
-            "rounding is outside the theorems; float cases within 1e-4 of a zero divisor / of |k| = 1 are only "
-            "counted, not compared (histogram float_ill_conditioned_model_comparison_skipped).",
+            "toeplitz; acorr / lag_matrix / toeplitz are the documented sums; lpc.kautocor = levinson_durbin(acorr), its "
+            "error is the energy of a * zero-extended block and (ordered field) the filter minimises it; lpc.kcovar as "
+            "coded (Gram-Schmidt with its exits) returns a solution of the covariance normal equations whose error is "
+            "the residual energy over n >= p, and minimises it; it fails to return exactly through line 326 "
+            "(ZeroDivisionError iff a zero beta[m], which over an ordered field means a singular system: the delayed "
+            "copies of the block are linearly dependent on the window; conversely a singular system excludes a return, "
+            "any field), line 329 (ValueError) or the length checks - the unguarded divisions of line 337 never raise.  "
+            "Call layer: the documented defaults (order = len - 1, max_lag = len(blk) - 1) equal the explicit call, "
+            "every spelling of the order (negative int, bool, float, Fraction) has its modelled outcome, the "
+            "StrategyDict names and the default strategy's dispatch.  Tied to /repo by a differential run (exact-rational "
+            "/ Gaussian-rational model vs the float-contaminated impl, exact on dyadic inputs) that also evaluates the "
+            "Lean spec on the coefficients the impl returns.",
+    "note": "Trusted: Lean kernel + propext/Classical.choice/Quot.sound, the Python harness, the hand-written models "
+            "(ZFilter/Poly arithmetic taken as coefficient-wise arithmetic on trimmed coefficient lists; the call layer). "
+            "numpy is absent: lpc.nautocor / lpc.covar bodies are neither modelled nor run.  Float rounding is outside "
+            "the theorems; float Levinson runs are compared under a conditioning-aware empirical bound, those whose "
+            "bound exceeds 1e-2 (and kcovar runs within 1e-4 of an exit) are only counted "
+            "(histograms float_ill_conditioned_model_comparison_skipped, near_singular_*).",
     "technique": "Lean 4 machine-checked proof (loop invariants by induction on the order, Finset sums) over an "
                  "executable model + differential correspondence and spec evaluation on the implementation's output",
 }
